@@ -30,6 +30,8 @@ def _bytearray(st, args):
 
 def _memoryview(st, args):
     v = args[0]
+    if v.t.kind == 'bytes':
+        return v        # a read-only view of an immutable bytes object: slicing and len() as on the bytes
     if v.t.kind != 'ref' or v.t.name != 'bytearray':
         raise Undecided('memoryview(%r)' % (v.t,))
     ref = st.new_ref('memoryview')
